@@ -68,6 +68,10 @@ class Position:
     slash_ok = True
     full = False
 
+    def extra_payloads(self) -> typing.List[str]:
+        """Position-specific spellings of the payloads (an encoding some layer may undo)."""
+        return []
+
     def build(self, t: Tree, p: str) -> None:
         pass
 
@@ -128,6 +132,17 @@ class MailSubject(Position):
     def build(self, t, p):
         t.file("mail.mbox", trees.make_mbox(["plain subject", p, "Re: " + p], self.scratch))
 
+    def extra_payloads(self):
+        # RFC 2047 encoded words spelling markup: inert text unless something decodes them
+        import base64
+        out = []
+        for raw in ('"><xss-7 onx-7=1>', "</TT></A><xss-7>", "<xss-7>"):
+            q = "".join("=%02X" % b for b in raw.encode())
+            out.append("=?utf-8?q?%s?=" % q)
+            out.append("=?utf-8?b?%s?=" % base64.b64encode(raw.encode()).decode())
+            out.append("=?iso-8859-1?Q?%s?= tail" % q)
+        return out
+
     def requests(self, p):
         return [(v, b"/mail.mbox") for v in ("http", "https", "wap")]
 
@@ -165,7 +180,14 @@ class LinkFile(Position):
         t.file("l/.Links", "Name=Link " + p + "\nType=1\nPath=/somewhere/" + p + "\nHost=+\nPort=+\n\n"
                "Name=URL " + p + "\nType=h\nPath=/URL:http://example.org/" + p + "\nHost=+\nPort=+\n\n"
                "Name=Remote\nType=1\nPath=/r" + p + "\nHost=h" + p.replace("/", "_").replace(" ", "_") + ".example\nPort=70\n\n"
-               "Path=./real.txt\nName=Renamed " + p + "\nAbstract=abs " + p + "\n")
+               "Path=./real.txt\nName=Renamed " + p + "\nAbstract=abs " + p + "\n\n"
+               # entries without a Name=: whatever is shown instead comes from the path
+               "Type=1\nPath=/nameless/" + p + "\nHost=+\nPort=+\n\n"
+               "Type=0\nPath=/nameless-q/" + urllib.parse.quote(p, safe="") + "\nHost=+\nPort=+\n\n"
+               "Type=h\nPath=/URL:http://example.org/nameless/" + p + "\nHost=+\nPort=+\n\n"
+               "Type=h\nPath=/URL:http://example.org/nameless-q/" + urllib.parse.quote(p, safe="") + "\nHost=+\nPort=+\n\n"
+               "Type=1\nPath=/rn" + p + "\nHost=remote.example\nPort=70\n\n"
+               "Type=1\nPath=/rnq" + urllib.parse.quote(p, safe="") + "\nHost=remote.example\nPort=70\n")
 
     def requests(self, p):
         return [(v, b"/l") for v in ("http", "https", "wap")]
@@ -306,10 +328,21 @@ def gopherplus_blocks(chk: Check, sc: Scratch) -> None:
         t.file("d/" + tfile, "<html><head><title>%s</title></head><body>x</body></html>" % titles[i % len(titles)])
         names.append(tfile)
         sidecars[tfile] = []
+        # mail subjects that spell line breaks and block headers inside RFC 2047 encoded words
+        import base64
+        enc_subjects = ["=?utf-8?q?Hello=0D=0A+ADMIN:=0D=0A_Admin:_Mallory?=",
+                        "=?utf-8?b?%s?=" % base64.b64encode(b"Hi\r\n+ABSTRACT:\r\n forged abstract").decode(),
+                        "=?iso-8859-1?Q?x=0A+INFO:_1fake=09/fake=09h.example=0970?=", "plain subject",
+                        "folded\n +VIEWS:\n  text/evil: <9k>"]
+        nmsg = 3
+        subj = [enc_subjects[(i + k) % len(enc_subjects)] for k in range(nmsg)]
+        t.file("m/box.mbox", trees.make_mbox(subj, sc.path))
+        t.subtree(b"m/mdir", trees.maildir_tree(subj))
         t.materialize(root)
         # entry abstracts would legitimately add informational items; keep them out of this listing
         site = driver.Site(root, overrides={("pygopherd", "abstract_entries"): "never", ("pygopherd", "abstract_headers"): "off",
-                                            ("handlers.UMN.UMNDirHandler", "extstrip"): "none"})
+                                            ("handlers.UMN.UMNDirHandler", "extstrip"): "none"},
+                           handlers=driver.HANDLERS_FULL)
         try:
             _, plain = fetch(site, "gopher", b"/d")
             try:
@@ -319,7 +352,9 @@ def gopherplus_blocks(chk: Check, sc: Scratch) -> None:
                 return
             listed = [d["selector"].rsplit(b"/", 1)[-1].decode() for d in plain_lines]
             for view, sel, nitems in (("gopherp$", b"/d", len(listed)), ("gopherp!", b"/d/a.txt", 1), ("gopherps$", b"/d", len(listed)),
-                                      ("gopherp!", b"/d/" + tfile.encode(), 1)):
+                                      ("gopherp!", b"/d/" + tfile.encode(), 1),
+                                      ("gopherp$", b"/m/box.mbox", nmsg), ("gopherp!", b"/m/box.mbox|/MBOX-MESSAGE/%d" % (1 + i % nmsg), 1),
+                                      ("gopherp$", b"/m/mdir", nmsg), ("gopherp!", b"/m/mdir|/MAILDIR-MESSAGE/%d" % (1 + i % nmsg), 1)):
                 req, r = fetch(site, view, sel)
                 chk.count("gopherplus_listings_checked")
                 v = validate.validate(r, req)
@@ -332,7 +367,9 @@ def gopherplus_blocks(chk: Check, sc: Scratch) -> None:
                     chk.witness("C13/gopherplus-content-became-item", dict(sample, items=len(items), expected=nitems))
                     return
                 order = {"ABSTRACT": 0, "KEYWORDS": 1, "ASK": 2, "3D": 3}
-                for item, n in zip(items, listed if nitems != 1 else [sel.rsplit(b"/", 1)[-1].decode()]):
+                in_mail = sel.startswith(b"/m/")
+                for item, n in zip(items, ["(message)"] * nitems if in_mail else
+                                   (listed if nitems != 1 else [sel.rsplit(b"/", 1)[-1].decode()])):
                     blocks = [b[0] for b in item]
                     want_extra = sorted((e[1:].upper() for e in sidecars.get(n, [])), key=lambda x: order[x])
                     if blocks[:3] != ["INFO", "ADMIN", "VIEWS"] or sorted(blocks[3:], key=lambda x: order.get(x, 9)) != want_extra \
@@ -353,11 +390,12 @@ def main() -> int:
         rng = chk.rng
         for i, pos in enumerate(positions):
             pl = list(PAYLOADS_NOSLASH) + (PAYLOADS_SLASH if pos.slash_ok else [])
+            extra = pos.extra_payloads()
             if quick:
-                pl = pl[:6] + rng.sample(pl[6:], 6)
+                pl = pl[:6] + rng.sample(pl[6:], 6) + extra[:4]
             else:
                 # thorough: also seeded combinations
-                pl += [rng.choice(PAYLOADS_NOSLASH) + rng.choice(PAYLOADS_NOSLASH) for _ in range(40)]
+                pl += [rng.choice(PAYLOADS_NOSLASH) + rng.choice(PAYLOADS_NOSLASH) for _ in range(40)] + extra
             run_position(chk, sc, pos, pl, i)
         gopherplus_blocks(chk, sc)
     return chk.finish(
